@@ -98,6 +98,8 @@ def op_reach(c):
 def op_solve_seq(c):
     """a sequence of solves on one description: each step (prune, fresh_object)"""
     game = dec(c["game"])
+    if c.get("share"):
+        game = share_rows(game)
     before = copy.deepcopy(game)
     out = []
     obj = None
